@@ -14,7 +14,9 @@ RULE = (
     "Generated: strict converters over a lattice of nested/overlapping/one-character-different URI prefixes "
     "(incl. the empty URI prefix, synonyms nested in other records' prefixes, any delimiter), each materialised "
     "five ways (given order, permuted, incrementally added in another permutation, incrementally merged synonym by "
-    "synonym, and incrementally with every probe queried after every single mutation so that stale caches show) and probed with boundary strings around every registered prefix plus random strings. "
+    "synonym, and incrementally with every probe queried after every single mutation so that stale caches show; further: split "
+    "into whole records and merged, case-insensitive merges, re-merged into itself, after calls that must be rejected, as "
+    "by-standing input of every derivation, and through from_reverse_prefix_map / from_priority_prefix_map) and probed with boundary strings around every registered prefix plus random strings. "
     "One evaluation = one (converter, probe) pair compared with the naive longest-match model on all variants. "
     "Non-trivial = the probe is matched by >=2 registered URI prefixes of different records, or equals a registered "
     "prefix, or is one character short of one, or is matched only by a registered empty URI prefix; distinct by "
